@@ -15,7 +15,14 @@ Fixed == <<17, 34, 51, 68>> \o <<85, 102, 119, 136>> \o <<5, 6>> \o <<7, 8>> \o 
 Word(bits) == LET v == [k \in 0..3 |-> FoldSet(LAMBDA b, s : s + (IF b \div 8 = k THEN 2 ^ (b % 8) ELSE 0), 0, bits)]
               IN <<v[3], v[2], v[1], v[0]>>
 BitSets == {{}} \cup {{i} : i \in 0..31} \cup {{i, j} : i \in 0..7, j \in 24..31} \cup {0..31}
+\* alarm words that look like the first bytes of a picture or video (a decoder must not sniff content where the standard fixes
+\* the layout), and BCD years around the pivots of two-digit-year conventions
+Magic == { <<255, 216, 255, 224>>, <<255, 216, 255, 219>>, <<137, 80, 78, 71>>, <<71, 73, 70, 56>>, <<0, 0, 0, 24>>, <<0, 0, 1, 179>>, <<66, 77, 54, 0>> }
+MagicBodies == {m \o Word({}) \o Fixed : m \in Magic} \cup {Word({}) \o m \o Fixed : m \in Magic}
+Times == { <<105, 18, 49, 35, 89, 89>>, <<112, 1, 1, 0, 0, 0>>, <<153, 18, 49, 35, 89, 89>>, <<0, 1, 1, 0, 0, 0>>, <<104, 18, 49, 0, 0, 0>>, <<80, 6, 21, 18, 48, 0>> }
+TimeBodies == {Word({0}) \o Word({1}) \o Sub(Fixed, 1, 14) \o t : t \in Times}
 FlagBodies == {Word(a) \o Word({}) \o Fixed : a \in BitSets} \cup {Word({}) \o Word(s) \o Fixed : s \in BitSets}
+              \cup MagicBodies \cup TimeBodies
 
 \* not standard items (kept verbatim, whatever follows them is still decoded): 0x00, 0x07, 0x14, 0x64 and 0x70 (vendor extensions
 \* without a registered decoder), 0xE0, 0xE1, 0xFF
